@@ -76,7 +76,7 @@ func Main(f vh.Flags) {
 	rng := vh.NewRNG(f.Seed)
 	n := f.N
 	if n == 0 {
-		n = 150
+		n = 800
 		if f.Tier == "thorough" {
 			n = 3000
 		}
